@@ -54,6 +54,14 @@ struct FnDir {
     /// `@@allow_empty`: a positional slice (`>a` .. `<b`) with nothing between its anchors is emitted
     /// as an EMPTY slice (so that the wrapper's contract is then checked against no code at all)
     allow_empty: bool,
+    /// `@@bind $name ~anchor`: `$name` stands for the first identifier bound by the `let` statement
+    /// of the function that matches `anchor` (so that contract text can name a local of the source
+    /// without fixing its spelling)
+    binds: Vec<(String, String)>,
+    /// E20 `@@caught ~text => call`: the expression `AssertUnwindSafe(async { BODY }).catch_unwind()`
+    /// whose BODY contains `text` (user code run under catch_unwind) is replaced by `call`, a declared
+    /// oracle stand-in; a `.then_yield()` is erased like `.await` (E3)
+    caughts: Vec<(String, String)>,
     /// E19 `@@letarg method name` + text: the single argument of the call `path.method(arg)` is
     /// let-bound in front of the call (`{ let name = arg; <text> path.method(name) }`); the receiver
     /// must be a plain path, so the evaluation order is unchanged
@@ -245,6 +253,7 @@ fn parse_template(path: &Path, nodes: &mut Vec<Node>) {
                             }
                             "pre" => d.pre.clear(),
                             "post" => d.post.clear(),
+                            "inline_then" => d.inline_then.clear(),
                             other => die(&format!("{sctx}: @@clear {other}?")),
                         },
                         "name" => d.name = Some(rest),
@@ -267,6 +276,10 @@ fn parse_template(path: &Path, nodes: &mut Vec<Node>) {
                         }
                         "sig" => d.sig = Some(rest),
                         "allow_empty" => d.allow_empty = true,
+                        "bind" => {
+                            let (n, a) = rest.split_once(char::is_whitespace).unwrap_or_else(|| die(&format!("{sctx}: @@bind $name anchor")));
+                            d.binds.push((n.trim().to_string(), a.trim().to_string()));
+                        }
                         "tail" => d.tail = Some(rest),
                         "letrecv" => {
                             let mut it = rest.split_whitespace();
@@ -295,6 +308,7 @@ fn parse_template(path: &Path, nodes: &mut Vec<Node>) {
                         "subst" => d.substs.push(parse_subst(&rest, &sctx)),
                         "subst?" => d.substs_opt.push(parse_subst(&rest, &sctx)),
                         "macro" => d.macros.push(parse_subst(&rest, &sctx)),
+                        "caught" => d.caughts.push(parse_subst(&rest, &sctx)),
                         "spec" => d.spec = multiline(&mut i),
                         "pre" => d.pre = multiline(&mut i),
                         "post" => d.post = multiline(&mut i),
@@ -445,6 +459,7 @@ struct Ed<'a> {
     closures_resolved: HashMap<usize, (usize, String)>,
     closures_pref_used: Vec<usize>,
     inline_then_used: Vec<usize>,
+    caughts_used: Vec<usize>,
     viter_used: usize,
     inline_entry_used: usize,
     letargs_used: Vec<usize>,
@@ -511,6 +526,7 @@ impl<'a> Ed<'a> {
             closures_resolved: dir.closures_pref.iter().enumerate().map(|(n, (k, _, h))| (*k, (n, h.clone()))).collect(),
             closures_pref_used: vec![0; dir.closures_pref.len()],
             inline_then_used: vec![],
+            caughts_used: vec![0; dir.caughts.len()],
             viter_used: 0,
             inline_entry_used: 0,
             letargs_used: vec![0; dir.letargs.len()],
@@ -759,6 +775,32 @@ impl<'a, 'ast> Visit<'ast> for Ed<'a> {
         visit::visit_expr_assign(self, e);
     }
     fn visit_expr_method_call(&mut self, e: &'ast syn::ExprMethodCall) {
+        // E20: `AssertUnwindSafe(async { BODY }).catch_unwind()` -> the declared oracle stand-in
+        if e.method == "catch_unwind" && e.args.is_empty() {
+            if let syn::Expr::Call(c) = &*e.receiver {
+                if let (syn::Expr::Path(p), Some(syn::Expr::Async(a)), 1) = (&*c.func, c.args.first(), c.args.len()) {
+                    if p.path.segments.last().map(|s| s.ident == "AssertUnwindSafe").unwrap_or(false) {
+                        let body = &self.src[a.block.span().byte_range()];
+                        for (n, (anchor, repl)) in self.dir.caughts.iter().enumerate() {
+                            if body.contains(anchor.trim_start_matches('~').trim()) {
+                                self.caughts_used[n] += 1;
+                                let es = e.span().byte_range();
+                                self.push(es.start, es.end, repl.clone(), "E20-caught-user-code", true);
+                                return;
+                            }
+                        }
+                    }
+                }
+            }
+        }
+        // E3: `.then_yield()` only adds a suspension point
+        if e.method == "then_yield" && e.args.is_empty() {
+            let rr = e.receiver.span().byte_range();
+            let es = e.span().byte_range();
+            self.push(rr.end, es.end, "", "E3-then-yield", false);
+            self.visit_expr(&e.receiver);
+            return;
+        }
         // E15: `cond.then(|| body)` with a closure that captures `&mut` state (rejected by Verus) is
         // replaced by the std definition of `bool::then`: `if cond { Some(body) } else { None }`
         if e.method == "then" && e.args.len() == 1 {
@@ -798,7 +840,9 @@ impl<'a, 'ast> Visit<'ast> for Ed<'a> {
                 Some((mm, k)) => (mm, k.parse::<usize>().ok()),
                 None => (m.as_str(), None),
             };
-            if e.method == m && !matches!(*e.receiver, syn::Expr::Path(_)) {
+            // (a receiver that is a local's name is let-bound as well — a move of that local; `self` is not)
+            let recv_is_self = matches!(&*e.receiver, syn::Expr::Path(p) if p.path.is_ident("self"));
+            if e.method == m && !recv_is_self {
                 if let Some(k) = want {
                     let key = format!("{m}@{}", e.method.span().byte_range().start);
                     if !self.letrecv_seen.iter().any(|(mm, kk)| mm == m && kk == &key) {
@@ -1252,6 +1296,32 @@ impl<'ast, 'b> Visit<'ast> for BlockFinder<'ast, 'b> {
     }
 }
 
+/// the first identifier bound by the first `let` statement (anywhere in the function) matching an anchor
+struct LetFinder<'b> {
+    src: &'b str,
+    anchor: &'b str,
+    found: Option<String>,
+}
+impl<'ast, 'b> Visit<'ast> for LetFinder<'b> {
+    fn visit_stmt(&mut self, s: &'ast syn::Stmt) {
+        if self.found.is_some() {
+            return;
+        }
+        if let syn::Stmt::Local(l) = s {
+            let r = s.span().byte_range();
+            if anchor_match(stmt_text_no_attrs(self.src, s, r.start, r.end), self.anchor) {
+                let mut ids = vec![];
+                collect_pat_idents(&l.pat, &mut ids);
+                if let Some(id) = ids.first() {
+                    self.found = Some(id.clone());
+                    return;
+                }
+            }
+        }
+        visit::visit_stmt(self, s);
+    }
+}
+
 /// statement text with leading attributes / doc comments / line comments skipped (anchors match code)
 fn stmt_text_no_attrs<'s>(src: &'s str, s: &syn::Stmt, start: usize, end: usize) -> &'s str {
     let mut st = start;
@@ -1454,7 +1524,14 @@ fn main() {
                     // hand-written tail of its wrapper may mention variables the slice no longer
                     // binds, and is unreachable anyway — dropped up to the wrapper's closing brace
                     skip_wrapper_tail = false;
-                    match t.find("\n}") {
+                    // (the wrapper's closing brace is the first `}` at the start of a line; the text
+                    // may begin with it when the wrapper has no tail at all)
+                    let close = if t.starts_with('}') { Some(0) } else { t.find("\n}") };
+                    match close {
+                        Some(0) => {
+                            output.push_str("    // vx: hand-written tail of the wrapper dropped (slice stubbed)\n");
+                            output.push_str(t);
+                        }
                         Some(p) => {
                             output.push_str("    // vx: hand-written tail of the wrapper dropped (slice stubbed)");
                             output.push_str(&t[p..]);
@@ -1989,6 +2066,13 @@ fn main() {
                 for (k, j, name) in &ed.closure_params {
                     text = text.replace(&format!("$c{k}_{j}"), name);
                 }
+                // `@@bind $name ~anchor`
+                for (ph, anchor) in &d.binds {
+                    let mut lf = LetFinder { src: &src.text, anchor, found: None };
+                    lf.visit_block(f.block);
+                    let id = lf.found.unwrap_or_else(|| die(&format!("{ctx}: @@bind anchor matches no `let` statement: {anchor}")));
+                    text = text.replace(ph.as_str(), &id);
+                }
                 // longest placeholders first (`$last10` before `$last1`)
                 slice_binds.sort_by(|a, b| b.0.len().cmp(&a.0.len()));
                 for (ph, name) in &slice_binds {
@@ -2068,6 +2152,11 @@ fn check_used(ed: &Ed, d: &FnDir, ctx: &str) {
     for (n, (k, anchor, _)) in d.closures_pref.iter().enumerate() {
         if ed.closures_pref_used[n] != 1 {
             die(&format!("{ctx}: @@closure {k} ~{anchor}: no such closure any more ({} closures found)", ed.closure_idx));
+        }
+    }
+    for (n, (anchor, _)) in d.caughts.iter().enumerate() {
+        if ed.caughts_used[n] != 1 {
+            die(&format!("{ctx}: @@caught {anchor}: {} expressions `AssertUnwindSafe(async {{ .. }}).catch_unwind()` match (exactly one expected)", ed.caughts_used[n]));
         }
     }
     for (n, (m, name, _)) in d.letrecvs.iter().enumerate() {
